@@ -1,0 +1,49 @@
+//go:build verif
+
+// Export shims for the verification harness under /verif (build tag "verif" only), property C17.
+// Add-only: no existing line is changed.
+package model
+
+import (
+	"istio.io/istio/pkg/config"
+)
+
+// VerifC17SortConfigByCreationTime exposes sortConfigByCreationTime (sorts in place, returns the slice).
+func VerifC17SortConfigByCreationTime(configs []config.Config) []config.Config {
+	return sortConfigByCreationTime(configs)
+}
+
+// VerifC17ConfigCompareByCreationTime exposes configCompareByCreationTime.
+func VerifC17ConfigCompareByCreationTime(a, b config.Config) int {
+	return configCompareByCreationTime(a, b)
+}
+
+// VerifC17SortConfigBySelectorAndCreationTime exposes sortConfigBySelectorAndCreationTime
+// (DestinationRule specs only; sorts in place).
+func VerifC17SortConfigBySelectorAndCreationTime(configs []config.Config) []config.Config {
+	return sortConfigBySelectorAndCreationTime(configs)
+}
+
+// VerifC17SortMergedVirtualServices exposes sortMergedVirtualServicesByCreationTime on bare configs.
+func VerifC17SortMergedVirtualServices(configs []*config.Config) []*config.Config {
+	in := make([]MergedVirtualService, 0, len(configs))
+	for _, c := range configs {
+		in = append(in, MergedVirtualService{Config: c})
+	}
+	in = sortMergedVirtualServicesByCreationTime(in)
+	out := make([]*config.Config, 0, len(in))
+	for _, m := range in {
+		out = append(out, m.Config)
+	}
+	return out
+}
+
+// VerifC17PickBestVisibleNamespace exposes pickBestVisibleNamespace.
+func VerifC17PickBestVisibleNamespace(ps *PushContext, byNamespace map[string]*Service, configNamespace string) string {
+	return pickBestVisibleNamespace(ps, byNamespace, configNamespace)
+}
+
+// VerifC17PickFirstVisibleNamespace exposes pickFirstVisibleNamespace.
+func VerifC17PickFirstVisibleNamespace(ps *PushContext, byNamespace map[string]*Service, configNamespace string) string {
+	return pickFirstVisibleNamespace(ps, byNamespace, configNamespace)
+}
